@@ -24,11 +24,11 @@
  * while a submission to that pool is in progress in another thread (P[i].submitting): the two halves of the environment
  * contract "no submission after put, no put during a submission".
  *
- * White box.  struct work_pool_priv / work_pool_thread are private to iv_work.c.  This file carries a copy of the
- * two declarations (between the WB-BEGIN/WB-END markers); vlib/c12.py compares the copy token by token with the
- * declarations in the iv_work.c that is being compiled on every build and refuses to run when they differ, which is
- * stronger than a size check and keeps iv_work.o itself the unmodified library object (so its mutex/thread/event calls
- * stay wrapped by the engine).  Library-internal calls from iv_work.o/iv_thread_posix.o to iv_event_register/
+ * White box.  struct work_pool_priv / work_pool_thread are private to iv_work.c.  vlib/c12.py extracts the two
+ * declarations from the iv_work.c that is being compiled on every build (T-gen) and this file includes them
+ * (MT_WORK_WB_FILE; the copy between the WB-BEGIN/WB-END markers is only the fallback for a stand-alone compile), which
+ * keeps iv_work.o itself the unmodified library object (so its mutex/thread/event calls stay wrapped by the engine)
+ * and lets the harness follow a change of the private layout as long as the members it names still exist.  Library-internal calls from iv_work.o/iv_thread_posix.o to iv_event_register/
  * unregister/post, iv_timer_register and iv_thread_create are redirected here (ld -r --wrap): they are logged
  * (`IREG/IUNREG/IPOST/ITREG <event>`), the handler of each internal event/timer is replaced by a logging shim
  * (`IH <event> begin|end`), and they give the names used by the engine's `SNAP evmu` lines:
@@ -43,6 +43,12 @@
 #include <iv_thread.h>
 #include <iv_work.h>
 
+/* The private declarations of the iv_work.c under check (struct work_pool_priv, struct work_pool_thread): regenerated from the source
+ * on every run by vlib/c12.py (T-gen) and passed in as MT_WORK_WB_FILE, so that the white-box view follows any change of the layout;
+ * the harness only needs the members it names below to exist. Fallback: the copy of the pinned source. */
+#ifdef MT_WORK_WB_FILE
+#include MT_WORK_WB_FILE
+#else
 /* WB-BEGIN (copy of the private declarations of /repo/src/iv_work.c; checked against the source by vlib/c12.py) */
 struct work_pool_priv {
 	___mutex_t		lock;
@@ -70,6 +76,7 @@ struct work_pool_thread {
 	struct iv_timer		idle_timer;
 };
 /* WB-END */
+#endif
 
 #define MAXINST 64
 #define MAXWK 64
